@@ -18,6 +18,8 @@ type CEnv struct {
 	prove     bool // positive-polarity foralls are Skolemised
 	tparam    map[string]types.Type
 	inOld     bool
+	headMem   map[string]*MemVer
+	cells     map[string]V // captured variables by name: the address of the variable
 	pol       bool // current polarity (true = positive)
 	fn        string
 	skolems   map[*CExpr]V       // forall nodes Skolemised ahead of time (at function entry)
@@ -176,6 +178,16 @@ func (env *CEnv) eval(e *CExpr) V {
 			return vBool(e.Tok)
 		case "nil":
 			return V{K: KPtr, T: bvLit(0, 64), W: 64, Typ: types.Typ[types.UntypedNil]}
+		}
+		if cell, isCell := env.cells[e.Tok]; isCell {
+			// a captured variable: its value in the memory this (sub)expression is read in
+			if pt, ok := cell.Typ.Underlying().(*types.Pointer); ok {
+				v := env.loadTyped(cell, pt.Elem())
+				if v.Typ == nil {
+					v.Typ = pt.Elem()
+				}
+				return v
+			}
 		}
 		v, ok := env.vars[e.Tok]
 		if !ok {
@@ -717,6 +729,15 @@ func (env *CEnv) call(e *CExpr) V {
 		env.inOld = true
 		defer func() { env.inOld = saved }()
 		return arg(0)
+	case "athead":
+		// the argument read in the memory at the head of the current loop iteration
+		if env.headMem == nil {
+			cfail("athead: not inside a loop with an invariant")
+		}
+		savedIn, savedOld := env.inOld, env.oldMem
+		env.inOld, env.oldMem = true, env.headMem
+		defer func() { env.inOld, env.oldMem = savedIn, savedOld }()
+		return arg(0)
 	case "len":
 		v := arg(0)
 		if v.K == KSeq {
@@ -1097,7 +1118,20 @@ func (env *CEnv) ghostCall(e *CExpr) V {
 		cfail("ghost call: no signature known for %s", key)
 	}
 	var args []V
-	for _, a := range e.Args {
+	for i, a := range e.Args {
+		pi := i
+		if sig.Recv() != nil {
+			pi = i - 1
+		}
+		if a.Op == "str" && pi >= 0 && pi < sig.Params().Len() {
+			if b, ok := sig.Params().At(pi).Type().Underlying().(*types.Basic); ok && b.Kind() == types.String {
+				if s, err := strconv.Unquote(a.Tok); err == nil {
+					// a literal handed to a string parameter is the program's constant of that content
+					args = append(args, env.st.constString(s))
+					continue
+				}
+			}
+		}
 		args = append(args, env.eval(a))
 	}
 	nparams := sig.Params().Len()
